@@ -3,24 +3,26 @@ package main
 import (
 	"fmt"
 	"go/ast"
+
 	"go/token"
 	"go/types"
+	"golang.org/x/tools/go/ssa"
 	"strconv"
 	"strings"
 )
 
 // EvalCtx evaluates contract expressions into SMT terms in a given state.
 type EvalCtx struct {
-	u     *Unit
-	st    *State
-	old   *State
-	vars  map[string]Term
-	pkg   *types.Package // package whose scope resolves type names and preds
-	bound map[string]bool
-	side  []Term // extensionality instances etc. to assume alongside
-	depth int
+	u               *Unit
+	st              *State
+	old             *State
+	vars            map[string]Term
+	pkg             *types.Package // package whose scope resolves type names and preds
+	bound           map[string]bool
+	side            []Term // extensionality instances etc. to assume alongside
+	depth           int
 	polarityUnknown bool
-	loopSnap *State
+	loopSnap        *State
 }
 
 func (c *EvalCtx) child() *EvalCtx {
@@ -127,6 +129,14 @@ func (c *EvalCtx) ident(name string) Term {
 	}
 	if k, ok := c.u.eng.specConsts[name]; ok {
 		return k
+	}
+	// package-level variable of the contract's package
+	if c.pkg != nil {
+		if sp := c.u.eng.spkgs[c.pkg.Path()]; sp != nil {
+			if g, ok := sp.Members[name].(*ssa.Global); ok {
+				return c.loadGlobal(&globalInfo{g})
+			}
+		}
 	}
 	c.fail("unknown name %q in contract", name)
 	return Term{}
@@ -245,6 +255,20 @@ func (c *EvalCtx) call(x *ast.CallExpr) Term {
 		r := n.eval(x.Args[0])
 		c.side = append(c.side, n.side[len(c.side):]...)
 		return r
+	case "val":
+		// val(p): the struct value stored at p (all fields gathered), for value-level predicates
+		v := c.eval(x.Args[0])
+		if v.T == nil {
+			c.fail("val() of untyped operand")
+		}
+		t := unwrapRef(v.T)
+		if pt, ok := t.Underlying().(*types.Pointer); ok {
+			t = pt.Elem()
+		}
+		if _, ok := isStruct(t); !ok {
+			c.fail("val() of non-struct %s", types.TypeString(t, nil))
+		}
+		return c.u.gather(c.st, t, mk(v.S, SInt))
 	case "atloop":
 		// atloop(e): e evaluated in the heap as it was when the loop was entered
 		if c.loopSnap == nil {
@@ -413,7 +437,7 @@ func (c *EvalCtx) expandPred(pd *PredDef, x *ast.CallExpr) Term {
 			defer func() { recover() }()
 			n := *c
 			n.side = nil
-			n.expandPredBody(pd, x)
+			n.expandPredArgs(pd, args)
 		}()
 		fp := c.u.tracking
 		c.u.tracking = saved
@@ -442,6 +466,14 @@ func (c *EvalCtx) expandPred(pd *PredDef, x *ast.CallExpr) Term {
 }
 
 func (c *EvalCtx) expandPredBody(pd *PredDef, x *ast.CallExpr) Term {
+	var args []Term
+	for _, a := range x.Args {
+		args = append(args, c.eval(a))
+	}
+	return c.expandPredArgs(pd, args)
+}
+
+func (c *EvalCtx) expandPredArgs(pd *PredDef, args []Term) Term {
 	n := c.child()
 	n.depth = c.depth + 1
 	n.side = nil
@@ -452,10 +484,10 @@ func (c *EvalCtx) expandPredBody(pd *PredDef, x *ast.CallExpr) Term {
 	n.vars = map[string]Term{}
 	// predicates see ghost/global names of the caller context through st only
 	for i, p := range pd.Params {
-		v := c.eval(x.Args[i])
+		v := args[i]
 		if p.Type != nil {
 			if t := c.u.eng.resolveTypeOpt(n.pkg, p.Type); t != nil {
-				if v.T == nil || isUntypedNil(v.T) || !sameSortType(v.T, t) {
+				if v.T == nil || isUntypedNil(v.T) {
 					v.T = t
 				}
 			}
